@@ -32,7 +32,10 @@ THEOREMS = [
     dict(name="Snow.C04.run_outcome_canonical", clause="every history incl. seed_v assignments and property reads: generator schedule and vial deviates (seed_v, N) of the run equal those of a fresh Snowflake(seed=s, seed_v=v)", strength="full"),
     dict(name="Snow.C04.run_config_current", clause="every history incl. in-place edits / replacement of the attached configuration: the run reads the configuration attached at that moment (and schedule, vial deviates as for a fresh object)", strength="full"),
     dict(name="Snow.C04.run_schedule_canonical_same_seed", clause="every history ++ [run] has the fresh schedule of the seed in force", strength="full"),
-    dict(name="Snow.C04.record_independent", clause="events, schedules and object state do not depend on the deterministic storage selection", strength="full"),
+    dict(name="Snow.C04.record_independent", clause="model: object, events, schedules, vial deviates, configurations are equal for any two deterministic storage selections (no transition of the model reads such a mask - true by the model's shape; that the CODE behaves so rests on the correspondence: bit-identical stats across storeStates variants incl. final-step events)", strength="by-construction"),
+    dict(name="Snow.C04.random_mask_run_canonical", clause="a `random` storage selection consumes a draw at construction, yet every run after any history uses the canonical schedule of its seed (run() restarts the generator)", strength="full"),
+    dict(name="Snow.C04.old_random_mask_shifts_dice", clause="pre-repair code: a random storage selection shifts the dice of the first run", strength="refutation-of-old-code"),
+    dict(name="Snow.C04.run_outcome_some", clause="the last-run statements are about a run that exists: scheds != [] and the last schedule / vial deviates / configuration are the canonical ones", strength="full"),
     dict(name="Snow.C04.snowfall_mode_independent", clause="every mode, repetition count and chunking: task i has schedule canon(cfg, i)", strength="full"),
     dict(name="Snow.C04.snowfall_pool_eq_seq", clause="pool table = sequential table for every ordered partition", strength="full"),
     dict(name="Snow.C04.snowfall_rep_standalone", clause="repetition i = Snowflake(seed=i).run() (schedule, hence any result function of it)", strength="full"),
@@ -51,7 +54,7 @@ TRUSTED = [
     "hand-written model SnowModel/Seeds.lean tied to snowflake.py / snowfall.py by this differential check",
 ]
 ASSUMPTIONS = [
-    "deterministic storage selections only (a `random` selection consumes draws at construction - excluded by the property's wording)",
+    "storage selections: deterministic ones throughout; `random_n` selections (they consume a draw at construction) in dedicated histories - statistics still must equal the non-recording fresh run",
     "configuration (k, opcond, dt, constants) is not mutated between operations; N_vials may be reassigned (storeStates=None)",
 ]
 RULE = ("histories of up to 6 (quick) / 9 (thorough) operations new/seed=/seed_v=/edits of the attached opcond and dt/`_buildHeatflowMatrices`/run/N_vials=/"
@@ -102,8 +105,9 @@ class RecGen:
         return self.g.random(*a, **kw)
 
     def choice(self, *a, **kw):
-        EVENTS.append(("choice", None, self._pos()))
-        self.hist.append(("choice",))
+        n = int(kw["size"]) if kw.get("size") is not None else (int(a[1]) if len(a) > 1 and a[1] is not None else 1)
+        EVENTS.append(("choice", n, self._pos()))
+        self.hist.append(("choice", n))
         return self.g.choice(*a, **kw)
 
     def __getattr__(self, name):
@@ -200,6 +204,8 @@ def _plain(evs):
             out.append(["normal", e[1]])
         elif e[0] == "xi":
             out.append(["xi", e[1], e[2]])
+        elif e[0] == "choice":
+            out.append(["choice", e[1]])
         else:
             out.append([e[0]])
     return out
@@ -427,7 +433,8 @@ def run_impl(case):
     _install()
     try:
         if case["kind"] == "history":
-            return {"raise": None, "ops": _run_history(case)}
+            rnd = case.get("random_store")
+            return {"raise": None, "ops": _run_history(case, f"random_{rnd}" if rnd else None)}
         if case["kind"] == "record":
             t_tot = _final_event(case)
             try:
@@ -486,10 +493,11 @@ def _chunk_ops(seeds):
 
 def run_model(drv, case):
     if case["kind"] in ("history", "record"):
-        r = drv.call({"op": "c04_chunks", "sigmaPos": _sigma_pos(case), "pre": case["ops"]})
+        extra = {"random": case["random_store"]} if case.get("random_store") else {}
+        r = drv.call({"op": "c04_chunks", "sigmaPos": _sigma_pos(case), "pre": case["ops"], **extra})
         if "error" in r:
             raise RuntimeError(r["error"])
-        old = drv.call({"op": "c04_chunks", "sigmaPos": _sigma_pos(case), "old": True, "pre": case["ops"]})
+        old = drv.call({"op": "c04_chunks", "sigmaPos": _sigma_pos(case), "old": True, "pre": case["ops"], **extra})
         return {"trace": r["pre"], "trace_old": old["pre"]}
     # Snowfall: the model is driven with the OBSERVED chunking (the theorems hold for every chunking);
     # this needs the implementation's observation, so it is done in `compare`
@@ -649,6 +657,8 @@ def classify(case, impl):
     if case["kind"] == "history":
         tags.append(f"len={len(case['ops'])}")
         tags.append(f"runs={sum(1 for o in case['ops'] if o[0] == 'run')}")
+        if case.get("random_store"):
+            tags.append("random storage selection")
         for t in ("setN", "build", "setSeedV", "readShelf", "readInt", "editCfg"):
             if any(o[0] == t for o in case["ops"]):
                 tags.append("has " + t)
@@ -762,6 +772,17 @@ KW_VARIANTS = [
 ]
 
 
+def _random_store(rng):
+    nv = rng.choice([[3, 3, 1], [2, 3, 1], [2, 2, 1]])
+    ops = [["new", rng.choice(SEEDS)] + nv]
+    for _ in range(rng.randint(0, 3)):
+        ops.append(rng.choice([["setSeed", rng.choice(SEEDS)], ["build"], ["run"], ["readShelf"], ["setSeedV", 7]]))
+    if rng.random() < 0.6:
+        ops.append(["setSeed", rng.choice(SEEDS)])
+    ops.append(["run"])
+    return dict(kind="history", sigma=rng.choice([0.1, 0, None]), ops=ops, random_store=rng.choice([1, 2, 3]))
+
+
 def _record(rng):
     sigma = rng.choice([0.1, 0, 0.2])
     nv = rng.choice([[3, 3, 1], [2, 2, 1], [2, 3, 1]])
@@ -790,6 +811,8 @@ def cases(rng, tier):
         yield _record_final(rng)
     for _ in range(60 if quick else 600):
         yield _targeted(rng)
+    for _ in range(40 if quick else 400):
+        yield _random_store(rng)
     for _ in range(1200 if quick else 12000):
         yield _history(rng, maxlen)
     for _ in range(60 if quick else 400):
